@@ -18,7 +18,7 @@ const (
 )
 
 func init() {
-	for _, k := range []string{"steady", "reload-same", "reload-http", "reload-add", "reload-inflight-email", "reload-inflight-webhook", "restart", "repeat"} {
+	for _, k := range []string{"steady", "retry-5xx", "reload-same", "reload-http", "reload-add", "reload-inflight-email", "reload-inflight-webhook", "restart", "repeat"} {
 		register("C04", k, c04Scenario)
 	}
 }
@@ -40,11 +40,12 @@ func groupOf(r Req) string {
 
 type c04Alert struct{ G, ID string }
 
-// sel returns the notifications to endpoint ep about group g with the given status that were not aborted.
+// sel returns the notifications to endpoint ep about group g with the given status that were delivered: not cut off
+// by the client and not answered with an error (requests still in flight count).
 func sel(reqs []Req, ep, g, status string) []Req {
 	var out []Req
 	for _, r := range reqs {
-		if r.Name == ep && groupOf(r) == g && r.Msg.Status == status && !r.Aborted {
+		if r.Name == ep && groupOf(r) == g && r.Msg.Status == status && !r.Aborted && r.Code < 300 {
 			out = append(out, r)
 		}
 	}
@@ -71,7 +72,13 @@ func c04Scenario(s *sc) {
 		rc.Email = true
 	}
 	conf := Conf{Root: Route{Receiver: "r0", GroupBy: []string{"g"}, GW: gw, GI: gi, RI: ri}, Receivers: []Recv{rc}}
-	sendResolved := map[string]bool{"r0.w0": true, "r0.w1": false, "r0.d0": true, "r0.e0": true, "r0.w2": true}
+	rc1 := Recv{Name: "r1", Hooks: []Hook{{SendResolved: true}}}
+	two := s.r.Bool()
+	if two { // every alert is routed to r1 as well (a matching child with continue, then a matching child for r0)
+		conf.Receivers = append(conf.Receivers, rc1)
+		conf.Root.Routes = []Route{{Receiver: "r1", Matchers: []string{`alertname="A"`}, Continue: true}, {Receiver: "r0", Matchers: []string{`alertname="A"`}}}
+	}
+	sendResolved := map[string]bool{"r0.w0": true, "r0.w1": false, "r0.d0": true, "r0.e0": true, "r0.w2": true, "r1.w0": true}
 	// ---- alerts: one or two groups, 1..3 alerts in the first ----
 	var alerts []c04Alert
 	n1 := 1 + s.r.Intn(3)
@@ -100,6 +107,10 @@ func c04Scenario(s *sc) {
 	if kind == "reload-inflight-webhook" {
 		in.Sink.Script("r0.w0", Resp{DelayMs: 3000})
 	}
+	if kind == "retry-5xx" {
+		// recoverable failures first: the retry loop inside the flush must go on until a send succeeds
+		in.Sink.Script("r0.w0", Resp{Code: 500}, Resp{Code: 503}, Resp{Code: 200})
+	}
 	s.must(in.WriteConfig(conf.YAML(in.Sink)), "write config")
 	s.must(in.Start(), "start")
 
@@ -119,6 +130,9 @@ func c04Scenario(s *sc) {
 		return t
 	}
 	endpoints := rc.Endpoints()
+	if two {
+		endpoints = append(endpoints, rc1.Endpoints()...)
+	}
 	tPost := post(time.Now().Add(10 * time.Minute))
 	s.logf("posted %d firing alerts", len(alerts))
 
@@ -183,7 +197,7 @@ func c04Scenario(s *sc) {
 		return true
 	}
 	in.Sink.WaitFor(time.Now().Add(5*time.Second), allDone)
-	quiet := time.Now().Add(700 * time.Millisecond)
+	quiet := time.Now().Add(time.Second)
 	sleepTo := func(t time.Time) {
 		if t.Before(quiet) {
 			t = quiet
@@ -197,6 +211,19 @@ func c04Scenario(s *sc) {
 	switch kind {
 	case "steady", "repeat":
 		tEvent = time.Now()
+	case "retry-5xx":
+		tEvent = time.Now()
+		failed := 0
+		for _, r := range in.Sink.Of("r0.w0") {
+			if r.Code >= 500 {
+				failed++
+			}
+		}
+		if failed < 2 {
+			s.violate("failed-delivery-not-retried", "the receiver answered 500 then 503: expected 2 failed attempts before the successful one, saw %d", failed)
+			return
+		}
+		s.count("failed-attempts-retried-inside-the-flush")
 	case "reload-same", "reload-http", "reload-add":
 		sleepTo(tPost.Add(gw + time.Second))
 		if kind == "reload-add" {
@@ -204,9 +231,15 @@ func c04Scenario(s *sc) {
 			rc2.Hooks = append(append([]Hook{}, rc.Hooks...), Hook{SendResolved: true})
 			conf2 := conf
 			conf2.Receivers = []Recv{rc2}
+			if two {
+				conf2.Receivers = append(conf2.Receivers, rc1)
+			}
 			s.must(in.WriteConfig(conf2.YAML(in.Sink)), "write config 2")
 			newEP = "r0.w2"
 			endpoints = rc2.Endpoints()
+			if two {
+				endpoints = append(endpoints, rc1.Endpoints()...)
+			}
 		}
 		if kind == "reload-http" {
 			code, body, err := in.ReloadHTTP()
@@ -281,7 +314,7 @@ func c04Scenario(s *sc) {
 				}
 			}
 			for _, r := range in.Sink.Of(inflightEP) {
-				if r.Done.IsZero() || r.Done.Add(700*time.Millisecond).After(tEvent.Add(gw)) || !startsAt.Add(gw).After(tEvent) {
+				if r.Done.IsZero() || r.Done.Add(1200*time.Millisecond).After(tEvent.Add(gw)) || !startsAt.Add(gw).After(tEvent) {
 					s.inconclusive("the slow delivery did not end well before the first flush after the reload")
 					return
 				}
